@@ -104,6 +104,19 @@ func floatLiterals(c *Ctx) (pool []string, cl []string) {
 			add(lit+strings.Repeat("0", 820)+"10", "midpoint+longtail")
 			add(lit+strings.Repeat("0", 820), "midpoint+longzeros")
 		}
+		// a tail that still fits the 800-digit buffer when the literal is read, so that nothing is marked truncated
+		// there, while the binary right shifts of the scaling loop push its last digits past the end of the buffer:
+		// whether the result rounds up then rests entirely on the shift recording what it dropped
+		if sig := len(strings.TrimLeft(strings.Replace(lit, ".", "", 1), "0")); sig < 780 && (i%5 == 0 || i%6 == 4) {
+			dot := ""
+			if !strings.Contains(lit, ".") {
+				dot = "."
+			}
+			for _, total := range []int{800, 799, 790 + r.Intn(9)} {
+				add(lit+dot+strings.Repeat("0", total-sig-1)+"1", "midpoint+fittail")
+			}
+			add("-"+lit+dot+strings.Repeat("0", 800-sig-1)+"7", "midpoint+fittail")
+		}
 		if strings.Contains(lit, ".") && i%3 == 0 {
 			// the same value in exponent form
 			ip := strings.Index(lit, ".")
